@@ -185,10 +185,7 @@ def _run_chunk(exe, subcmd, lines, stall, burn=False, retry=True):
             p.wait()
             verdict = '(OT "%s" [])' % died
             if retry:
-                # a stall can be machine load and a crash can be collateral: the case is confirmed alone, with a
-                # much longer limit, before it is judged
-                again = _run_chunk(exe, subcmd, [lines[i + got]], max(90, stall * 20), burn, retry=False)
-                verdict = again[0]
+                verdict = "\0RETRY " + verdict       # judged after run_impl has run the case once more, on its own
             out.append(verdict)
             i += got + 1
         else:
@@ -205,7 +202,17 @@ def run_impl(exe, subcmd, lines, procs=8, stall=20):
     chunks = [lines[k:k + size] for k in range(0, len(lines), size)]
     with ThreadPoolExecutor(max_workers=n) as ex:
         res = list(ex.map(lambda kc: _run_chunk(exe, subcmd, kc[1], stall, burn=kc[0] % 2 == 1), enumerate(chunks)))
-    return [o for r in res for o in r]
+    out = [o for r in res for o in r]
+    # a stall can be machine load and a crash can be collateral: such a case is run once more on its own (eight of them
+    # at a time), with a longer limit (ten times the batch limit, at least 30 s), and that run is the one that is judged
+    again = [i for i, o in enumerate(out) if o.startswith("\0RETRY ")]
+    if again:
+        limit = min(300, max(30, stall * 10))
+        with ThreadPoolExecutor(max_workers=8) as ex:
+            redo = list(ex.map(lambda i: _run_chunk(exe, subcmd, [lines[i]], limit, burn=(i // size) % 2 == 1, retry=False)[0], again))
+        for i, o in zip(again, redo):
+            out[i] = o
+    return out
 
 
 # --------------------------------------------------------------------------
